@@ -100,7 +100,8 @@ Proof.
   - (* EOp *)
     destruct (N.eqb op 3).
     + apply bind_lef; [apply map_st_lef; intros s0 x; apply (step_lef EV EV' IH0)|]. intros [s1 rs]. apply lef_refl.
-    + apply bind_lef; [apply map_st_lef; intros s0 x; apply (step_lef EV EV' IH0)|]. intros [s1 rs]. apply lef_refl.
+    + destruct (vop_of op) as [vo|]; [|apply lef_refl].
+      apply bind_lef; [apply map_st_lef; intros s0 x; apply (step_lef EV EV' IH0)|]. intros [s1 rs]. apply lef_refl.
   - (* ECont *)
     apply bind_lef; [apply opt_st_lef; intros s0 x; apply (step_lef EV EV' IH0)|]. intros [s1 schema].
     apply bind_lef; [apply (eval_metas_lef EV EV' IH0)|]. intros [s2 [[status media] headers]]. apply lef_refl.
